@@ -166,25 +166,25 @@ ReqLabelEv(kind, s, p, nw, fam, qt) == Ev(kind, s, p, nw, fam, qt, Dash, 0, 0, 0
 
 OnRequest == \E s \in Servers, p \in Protos, nw \in Nets, fam \in Fams, qt \in QTypes, rc \in Rcodes \cup {"nil"},
                 rq \in ReqSizes, rs \in RespSizes, d \in Durs :
-                Deliver(Ev("Request", s, p, nw, fam, qt, rc, rq, IF rc = "nil" THEN 0 ELSE rs, d, Dash, Dash, 0))
+                /\ Deliver(Ev("Request", s, p, nw, fam, qt, rc, rq, IF rc = "nil" THEN 0 ELSE rs, d, Dash, Dash, 0)) /\ last'.kind # "none"
 SrvEv(kind, s, p) == Ev(kind, s, p, Dash, Dash, Dash, Dash, 0, 0, 0, Dash, Dash, 0)
-OnInvalidMsg == \E s \in Servers, p \in Protos : Deliver(SrvEv("InvalidMsg", s, p))
-OnError == \E s \in Servers, p \in Protos : Deliver(SrvEv("Error", s, p))
-OnPanic == \E s \in Servers, p \in Protos : Deliver(SrvEv("Panic", s, p))
+OnInvalidMsg == \E s \in Servers, p \in Protos : /\ Deliver(SrvEv("InvalidMsg", s, p)) /\ last'.kind # "none"
+OnError == \E s \in Servers, p \in Protos : /\ Deliver(SrvEv("Error", s, p)) /\ last'.kind # "none"
+OnPanic == \E s \in Servers, p \in Protos : /\ Deliver(SrvEv("Panic", s, p)) /\ last'.kind # "none"
 OnQUICAddressValidation == \E hit \in {"0", "1"} :
-    Deliver(Ev("Quic", Dash, Dash, Dash, Dash, Dash, hit, 0, 0, 0, Dash, Dash, 0))
+    /\ Deliver(Ev("Quic", Dash, Dash, Dash, Dash, Dash, hit, 0, 0, 0, Dash, Dash, 0)) /\ last'.kind # "none"
 OnRateLimited == \E s \in Servers, p \in Protos, nw \in Nets, fam \in Fams, qt \in QTypes :
-    Deliver(ReqLabelEv("RateLimited", s, p, nw, fam, qt))
+    /\ Deliver(ReqLabelEv("RateLimited", s, p, nw, fam, qt)) /\ last'.kind # "none"
 OnAllowlisted == \E s \in Servers, p \in Protos, nw \in Nets, fam \in Fams, qt \in QTypes :
-    Deliver(ReqLabelEv("Allowlisted", s, p, nw, fam, qt))
+    /\ Deliver(ReqLabelEv("Allowlisted", s, p, nw, fam, qt)) /\ last'.kind # "none"
 PlainEv(kind, n) == Ev(kind, Dash, Dash, Dash, Dash, Dash, Dash, 0, 0, 0, Dash, Dash, n)
-OnCacheHit == Deliver(PlainEv("CacheHit", 0))
-OnCacheMiss == Deliver(PlainEv("CacheMiss", 0))
-OnCacheItemAdded == \E n \in CacheLens : Deliver(PlainEv("CacheAdded", n))
+OnCacheHit == /\ Deliver(PlainEv("CacheHit", 0)) /\ last'.kind # "none"
+OnCacheMiss == /\ Deliver(PlainEv("CacheMiss", 0)) /\ last'.kind # "none"
+OnCacheItemAdded == \E n \in CacheLens : /\ Deliver(PlainEv("CacheAdded", n)) /\ last'.kind # "none"
 OnForwardRequest == \E u \in Ups, nw \in FwdNets, rc \in Rcodes \cup {"nil"}, err \in Errs, d \in Durs :
-    Deliver(Ev("Forward", Dash, Dash, nw, Dash, Dash, rc, 0, 0, d, u, err, 0))
+    /\ Deliver(Ev("Forward", Dash, Dash, nw, Dash, Dash, rc, 0, 0, d, u, err, 0)) /\ last'.kind # "none"
 OnUpstreamStatusChanged == \E u \in Ups, up \in {0, 1} :
-    Deliver(Ev("Status", Dash, Dash, Dash, Dash, Dash, Dash, 0, 0, 0, u, Dash, up))
+    /\ Deliver(Ev("Status", Dash, Dash, Dash, Dash, Dash, Dash, 0, 0, 0, u, Dash, up)) /\ last'.kind # "none"
 
 Next == \/ OnRequest \/ OnInvalidMsg \/ OnError \/ OnPanic \/ OnQUICAddressValidation
         \/ OnRateLimited \/ OnAllowlisted
